@@ -79,36 +79,68 @@ PROPS["C14"] = {
     ],
 }
 
-# ---------------------------------------------------------------------------------------------
-# MANIFEST texts
-# ---------------------------------------------------------------------------------------------
-BMC = "bounded model checking (Kani/CBMC SAT) of the compiled code with symbolic inputs"
-
-MANIFEST_TEXT = {
-    "C12": {
-        "level": "Bounded model checking: for every slice length 0..=4 (thorough 6), every element value, every write "
-                 "index/value, every byte string of length <= 4 (thorough 5), every variant/payload, the SAT solver shows "
-                 "address/length/content identity, the exact UTF-8 accept set, and single-move of payloads. Right level "
-                 "because the interesting inputs (UTF-8 boundary classes, empty and ZST slices) are rare points in a "
-                 "huge space that a solver covers completely within the bound.",
-        "note": "Trusts Kani/CBMC/CaDiCaL and the harness-side RFC 3629 acceptor; lengths beyond the bound are outside the claim.",
-        "technique": BMC + "; differential against an independent RFC 3629 acceptor",
-    },
-    "C13": {
-        "level": "Bounded model checking over all Ok/Err values, all u64 payloads/sentinels and all 2^32 OS error codes: "
-                 "0 <=> Ok, slot written iff Ok and untouched on Err, decode reads the slot only on 0, shipped error types "
-                 "never encode to 0, OS codes round-trip; end-to-end through generated int_result wrappers.",
-        "note": "Trusts Kani/CBMC; decoded io::Error values are forgotten (drop glue not explored); user error types outside.",
-        "technique": BMC,
-    },
-    "C14": {
-        "level": "Bounded model checking for all valid-UTF-8 inputs up to 3 (thorough 4) bytes incl. NUL anywhere: buffer = "
-                 "prefix + one NUL, content equality/hash/clone, no out-of-bounds read, no leak (CBMC leak check) and "
-                 "size-matched free (Kani dealloc model). Found the From<&[u8]> defect (fixed in 152e180).",
-        "note": "Trusts Kani/CBMC and its allocator model (alignment ignored); longer inputs outside the claim.",
-        "technique": BMC + " with memory-leak and dealloc-size checks",
-    },
+PROPS["C10"] = {
+    "crate": "rt",
+    "groups": [
+        {"id": "arc",
+         "quick": ["c10::c10_pool_k2", "c10::c10_pool_k3", "c10::c10_from_value_last_handle_drops", "c10::c10_empty_is_inert",
+                   "c10::c10_foreign_functions_used", "c10::c10_negative_twin"],
+         "thorough_adds": ["c10::c10_pool_k4"],
+         "timeout": 3000},
+    ],
+    "negative": ["c10::c10_negative_twin"],
+    "bounds": "every history of k = 2 and 3 (thorough 4) operations, each chosen symbolically from 10 operation kinds {clone, "
+              "take, drop, transpose both ways, swap, CArcSome clone, into_arc + from Option<Arc>, into_opaque, opaque clone, "
+              "opaque drop}, on a pool of 2 typed handle slots + 1 opaque slot sharing one allocation, observed through a "
+              "retained std Arc's strong_count and the payload's drop counter; symbolic payload value; both drop orders",
+    "outside": "threads / concurrent schedules (Kani models a sequential machine; the Send/Sync impls are C09's subject); "
+               "histories longer than 4; more than 3 simultaneously live handles",
+    "assumptions": KANI_ASSUME + ["std::sync::Arc's atomics are modelled sequentially"],
 }
 
-NOT_YET = {k: "check under construction at this commit (planned in DESIGN.md section 5); not claimed yet" for k in
-           ["C01", "C02", "C04", "C05", "C06", "C07", "C08", "C09", "C10", "C11", "C15", "C16", "C17", "C19", "C20"]}
+PROPS["C15"] = {
+    "crate": "rt",
+    "groups": [
+        {"id": "feed",
+         "quick": ["c15::c15_feed_into_closure_4", "c15::c15_feed_into_mut_closure_4", "c15::c15_extend_closure_4",
+                   "c15::c15_collect_vec_3", "c15::c15_collect_extend_3", "c15::c15_call_forwards",
+                   "c15::c15_items_dropped_once", "c15::c15_citer_same_items_4", "c15::c15_citer_interleave_4",
+                   "c15::c15_citer_items_owned_once", "c15::c15_citer_unbounded_source", "c15::c15_negative_twin"],
+         "thorough_adds": ["c15::c15_feed_into_closure_6", "c15::c15_feed_into_mut_closure_6", "c15::c15_extend_closure_6",
+                           "c15::c15_collect_vec_4", "c15::c15_collect_extend_4"],
+         "timeout": 1500},
+        {"id": "heap", "quick": ["c15::c15_vec_to_vec_moves"], "cbmc_args": LEAK, "timeout": 1500},
+    ],
+    "negative": ["c15::c15_negative_twin"],
+    "bounds": "all item sequences of length 0..=4 (thorough 6) with symbolic items, every stop position (never/first/middle/"
+              "last), sinks {closure, &mut Vec, Extend collection}, drivers {feed_into, feed_into_mut, Extend::extend, call}; "
+              "CIterator over all slice sources of length 0..=4, symbolic number of pulls through the wrapper before it is "
+              "dropped, interleaved with direct use of the source; drop-counted items (<= 3)",
+    "outside": "longer sequences; panicking closures; zero-sized iterator state (see DESIGN.md, separately reported)",
+    "assumptions": KANI_ASSUME,
+}
+
+PROPS["C19"] = {
+    "crate": "rt",
+    "groups": [
+        {"id": "skeletons",
+         "quick": ["c19::c19_chain2", "c19::c19_star2", "c19::c19_chain3", "c19::c19_mixed3_late_clone",
+                   "c19::c19_borrowed_only", "c19::c19_negative_twin"],
+         "cbmc_args": LEAK, "timeout": 1800},
+    ],
+    "negative": ["c19::c19_negative_twin"],
+    "bounds": "enumerated derivation skeletons of <= 3 foreign wakers (chain2, star2, chain3, mixed tree with a late clone, "
+              "borrowed-only); on each skeleton ALL histories over: per handle the phase (of 3, the last after with_waker "
+              "returned) in which it ends, by drop or by wake-by-value, wake_by_ref per handle and phase, wake_by_ref on the "
+              "borrowed waker, order inside the last phase; CBMC leak check on (the BaseArc block is freed exactly once)",
+    "outside": "other threads (Kani is sequential; BaseArc's atomics are modelled sequentially); more than 3 foreign handles; "
+               "Stream/Sink glue beyond the waker conversion",
+    "assumptions": KANI_ASSUME + [
+        "the caller's waker is a harness-defined RawWaker over a counter record {live, wakes, clones, touched-after-dead}",
+        "skeletons are enumerated because a symbolic 'which handle exists' makes CBMC fan out over all function pointers",
+    ],
+}
+
+# <<SPECS-END>>
+
+from props_text import MANIFEST_TEXT, NOT_YET  # noqa: E402
